@@ -59,7 +59,7 @@ META = {
             'of the tasks (~25% of them failing: return False / raise), oracle per task (run/up-to-date/error, ignored, '
             'ok/failed/error), --continue/--always, selection all/names/targets, runner serial | thread k=1..4 x schedule '
             'policy | process k=2,3; exhaustive tier: every DAG on <=3 tasks with task_dep/setup edges x every completion '
-            'order with 2 worker threads; non-trivial = a setup edge or a teardown task in the case and at least one task '
+            'order with 2 worker threads (thorough: <=4 tasks); non-trivial = a setup edge or a teardown task in the case and at least one task '
             'reported; distinct = distinct rendered case + schedule',
     'assumptions': ['actions touch only their own targets (granularity assumption of M1 for thread mode)',
                     'process-mode runs are sampled (real OS scheduling; completion order forced, pick-up order not)',
@@ -677,11 +677,11 @@ def eval_batch(batch):
 # plan
 # ======================================================================================================
 
-def small_cases():
-    """exhaustive small scope: every DAG on <=3 tasks with task_dep / setup edges, every task with a teardown, thread
+def small_cases(max_n=3):
+    """exhaustive small scope: every DAG on <=max_n tasks with task_dep / setup edges, every task with a teardown, thread
     runner with 2 workers (all completion orders), plus serial variants with one task up-to-date / failing / ignored
     and a failing teardown"""
-    dags = runlib.small_dags(3, ('task_dep', 'setup'))
+    dags = runlib.small_dags(max_n, ('task_dep', 'setup'))
     thread, serial = [], []
     for d in dags:
         for t in d['tasks']:
@@ -703,9 +703,9 @@ def small_cases():
 
 def plan(ctx, scale=1.0):
     quick = ctx.tier == 'quick'
-    n_serial = int((600 if quick else 4000) * ctx.boost * scale)
-    n_thread = int((500 if quick else 4000) * ctx.boost * scale)
-    n_proc = int((15 if quick else 120) * min(ctx.boost, 2) * scale)
+    n_serial = int((600 if quick else 6000) * ctx.boost * scale)
+    n_thread = int((500 if quick else 6000) * ctx.boost * scale)
+    n_proc = int((15 if quick else 150) * min(ctx.boost, 2) * scale)
     rng = ctx.rng
     gen = []
     for _ in range(n_serial):
@@ -740,11 +740,12 @@ def corpus_batches():
 
 
 def exhaustive_batches(ctx):
-    thread, serial = small_cases()
+    max_n = 3 if ctx.tier == 'quick' else 4
+    thread, serial = small_cases(max_n)
     if ctx.tier == 'quick' and ctx.boost <= 1:
         thread = [d for d in thread if any(t['setup'] for t in d['tasks']) or len(d['tasks']) <= 2]
     ctx.extra['exhaustive_small_scope'] = {
-        'max_tasks': 3, 'labels': ['task_dep', 'setup'], 'thread_dags': len(thread), 'workers': 2,
+        'max_tasks': max_n, 'labels': ['task_dep', 'setup'], 'thread_dags': len(thread), 'workers': 2,
         'schedules': 'every completion order under eager dispatch (runlib policy eager)',
         'serial_variants': len(serial)}
     out = [{'exhaustive': thread[i:i + 6], 'limit': 48, 'shrink_s': 6.0} for i in range(0, len(thread), 6)]
